@@ -6,7 +6,11 @@ MODULES = {
     "C03": "harness.c03_tables",
     "C04": "harness.c04_address",
     "C05": "harness.c05_frame",
+    "C07": "harness.c07_commissioning",
     "C08": "harness.c08_gearseq",
+    "C09": "harness.c09_memread",
+    "C10": "harness.c10_memwrite",
+    "C11": "harness.c11_memvalues",
     "C12": "harness.c12_events",
     "C13": "harness.c13_deviceseq",
     "C14": "harness.c14_colour",
